@@ -246,11 +246,17 @@ func (m *Monitors) highestPrepared(n *Node, h uint64, before int) (uint64, strin
 	var bv uint64
 	var bx string
 	found := false
+	nm := m.per[n.Idx]
 	for _, s := range n.Sent {
 		if s.Seq >= before {
 			break
 		}
-		if s.Meta.Union == UC && s.Meta.H == h && (!found || s.Meta.V >= bv) {
+		if s.Meta.Union != UC || s.Meta.H != h {
+			continue
+		}
+		// only a COMMIT sent while the node's own storage held a prepared certificate for that view counts
+		// (a COMMIT sent on a commit quorum alone does not make the node prepared; with a failing commit callback the height goes on)
+		if x, ok := nm.preparedIn[hv{h, s.Meta.V}]; ok && x == s.Meta.Hash && (!found || s.Meta.V >= bv) {
 			bv, bx, found = s.Meta.V, s.Meta.Hash, true
 		}
 	}
